@@ -1175,6 +1175,12 @@ local function operator_binary_op(op, _, node, emitter, lattr, rattr, lname, rna
      ltype.is_unsigned ~= rtype.is_unsigned and
      not lattr.comptime and not rattr.comptime then
     emitter:add('(',node.attr.type,')(', lname, ' ', op, ' ', rname, ')')
+  elseif ltype.is_integral and rtype.is_integral and ltype ~= rtype and node.attr.type.is_integral and
+         ((lattr.comptime and not lattr.untyped and ltype.size > primtypes.cint.size) or
+          (rattr.comptime and not rattr.untyped and rtype.size > primtypes.cint.size)) then
+    -- a 64 bit constant may be emitted as a 32 bit C literal: do the operation in the result type
+    local type = node.attr.type
+    emitter:add('((', type, ')', lname, ' ', op, ' (', type, ')', rname, ')')
   else
     assert(ltype.is_arithmetic and rtype.is_arithmetic)
     emitter:add('(', lname, ' ', op, ' ', rname, ')')
